@@ -35,6 +35,7 @@ Oracle clauses (violation key = C01:<clause>:...):
                 flow_mod followed by a barrier request and a packet_out: what follows the flow_mod is
                 not exactly these two well-framed messages / the packet_out is not the unbuffered
                 re-send of the packet_in / they do not decode and re-encode
+  form          a documented secondary way of building an object (nx_match routes) does not yield the object
   failed        an operation on the object FAILED earlier: (a) len()/pack() while one member (own public
                 field, field of an owned object, list element) held a value that cannot be encoded yet
                 (None / an integer wider than any field / an object whose pack() raises) - the value is
@@ -54,7 +55,7 @@ A case stops at the first length/layout failure (decoding a wrong encoding prove
 decode clause that failed through one entry point is not reported again for the next one.
 Exceptions without any pox frame are harness errors, never violations.
 """
-import contextlib, io, logging, os, re, struct, sys, traceback, zlib
+import contextlib, io, json, logging, os, re, struct, sys, traceback, zlib
 from mc.engine import pmap
 from mc.report import Report, digest
 import mc.refs.ofspec as S
@@ -281,15 +282,18 @@ def strip_idx (p):
 
 
 class Verdict (object):
-  __slots__ = ("fails", "calls", "raw", "note")
+  __slots__ = ("fails", "calls", "raw", "note", "at", "now")
   def __init__ (self):
     self.fails = []     # (key suffix, text)
     self.calls = 0
     self.raw = None
     self.note = None
+    self.at = {}        # key suffix -> the history (phase, failing site, value, prior state ...) that failed
+    self.now = None     # the history being executed (set by the phases that enumerate histories)
   def fail (self, suffix, text):
     if any(x == suffix for x, _ in self.fails): return      # the same clause at the same site: one defect
     self.fails.append((suffix, text))
+    if self.now is not None: self.at[suffix] = dict(self.now)
 
 
 def layout_diff (exp, b, dont_care):
@@ -614,7 +618,10 @@ def run_wire (P, K, v):
   return V
 
 
-def run_case (P, K, v, state=True):
+def run_case (P, K, v, state=True, focus=None):
+  """state: 0 = the stateless clauses only, 1 = + the object-history phases at the quick tier's density,
+  2 = at the thorough tier's.  focus: one recorded history of a failed-operation phase (Verdict.at):
+  only that history is executed in its phase (replay of a recorded violation)."""
   if K.cat == 'wire': return run_wire(P, K, v)
   V = Verdict()
   own = K.opts.get('owner', K.name.split('/')[0])
@@ -629,12 +636,15 @@ def run_case (P, K, v, state=True):
     r = K.build(P, v)
   except OutOfScope:
     V.note = 'out-of-scope'; return V
+  except Misbuilt as e:
+    V.fail("form:%s:%s" % (own, e.what), "%s: %s" % (K.name, e)); V.note = 'misbuilt'; return V
   except Exception as e:
     site, inpox = exc_site(P, e)
     if not inpox: raise
     if site.endswith('@'): site += own
     if K.cat in ('nxm', 'nxmatch'):
       # an NXM entry encodes its value and mask when they are assigned: this is the codec
+      if K.opts.get('tag'): site += ':' + K.opts['tag']      # the form / route through which it was given
       V.fail("raises:" + site, "constructing %s raised %s: %s" % (K.name, type(e).__name__, str(e)[:120]))
     V.note = 'unconstructible:' + site; return V
   obj, expfn = r[0], r[1]
@@ -655,7 +665,10 @@ def run_case (P, K, v, state=True):
   except Exception as e:
     if over:
       V.note = 'rejected:' + type(e).__name__
-      if state and isinstance(v.get('<fits>'), dict): rejected_pack_phase(P, K, v, obj, V)
+      if state and isinstance(v.get('<fits>'), dict):
+        V.now = dict(phase='rejected-pack')
+        try: rejected_pack_phase(P, K, v, obj, V)
+        finally: V.now = None
     else: raised("pack()", e)
     return V
   if over:
@@ -770,11 +783,14 @@ def run_case (P, K, v, state=True):
       V.fail("reused:%s:pack-twice" % (layout_owner(K, d[0])[0] if d else own),
              "%s: a second pack() of the same object returned %d bytes (len() %d), the first %d bytes%s"
              % (K.name, len(b3), l3, len(whole), (", field %s differs" % d[0]) if d else "")); return V
-  if state and not V.fails:
-    failed_pack_phase(P, K, v, obj, b, whole, exp, flags, V, raised, dec, int(state))
-  if state and not V.fails and not K.opts.get('noreuse'):
-    failed_unpack_phase(P, K, v, obj, b, flags, V, raised, int(state))
-  if state and not V.fails and not K.opts.get('noreuse'):
+  try:
+    if state and not V.fails:
+      failed_pack_phase(P, K, v, obj, b, whole, exp, flags, V, raised, dec, int(state), focus)
+    if state and not V.fails and not K.opts.get('noreuse'):
+      failed_unpack_phase(P, K, v, obj, b, flags, V, raised, int(state), focus)
+  finally:
+    V.now = None
+  if state and not V.fails and not K.opts.get('noreuse') and focus is None:
     state_phases(P, K, v, obj, b, exp, flags, V, raised, ov, int(state))
   return V
 
@@ -789,7 +805,7 @@ def run_case (P, K, v, state=True):
 _REF = {}
 
 def ref_of (P, K):
-  """(vector, object, bytes, flags) of the kind's reference (base) vector, or None"""
+  """(vector, None, bytes, flags) of the kind's reference (base) vector, or None"""
   if K.name not in _REF:
     r = None
     rv = K.opts.get('refv')
@@ -797,7 +813,7 @@ def ref_of (P, K):
     if rv is not None:
       try:
         t = K.build(P, rv)
-        r = (rv, t[0], t[0].pack(), t[2] if len(t) > 2 else {})
+        r = (rv, None, t[0].pack(), t[2] if len(t) > 2 else {})      # the object itself is not kept: no case sees an object another case used
       except Exception:
         r = None
     _REF[K.name] = r
@@ -1081,9 +1097,12 @@ def state_phases (P, K, v, obj, b, exp, flags, V, raised, ov=None, state=1):
   # ---- reused ------------------------------------------------------------------------
   ref = ref_of(P, K)
   if ref is None or K.cat == 'nxm': return
-  rv, robj, rb, rflags = ref
+  rv, _, rb, rflags = ref
   try:
     xa = K.build(P, rv)[0]; xa.pack(); V.calls += 2
+    # a reference object of this case's own (parts of it end up shared with xa below), encoded once like xa:
+    # pack() is documented to infer / normalise some fields (stats type, nx_reg_load.nbits)
+    robj = K.build(P, rv)[0]; robj.pack(); V.calls += 2
   except Exception:
     return
   # A: unpack this case's bytes into an object that already encoded the reference vector
@@ -1209,7 +1228,7 @@ def raised_after (P, K, V, tag, phase, e):
 # the caller who specifies the one specifies the other with it
 COMPANIONS = {('ofp_action_output', 'port'): ('max_len',), ('nx_reg_load', 'offset'): ('nbits',), ('nx_reg_load', 'dst'): ('nbits',)}
 
-def failed_pack_phase (P, K, v, obj, b, whole, exp, flags, V, raised, dec, state):
+def failed_pack_phase (P, K, v, obj, b, whole, exp, flags, V, raised, dec, state, focus=None):
   """Sites = fail_sites() of the case's object.  The kind's reference vector: every site x every
   unencodable value x {never encoded, encoded once before}; then, for every field of the kind, the
   same history followed by the assignment of another value to THAT field (failing site rotating over
@@ -1236,6 +1255,7 @@ def failed_pack_phase (P, K, v, obj, b, whole, exp, flags, V, raised, dec, state
     yi, k, i = site
     tb, tlen, tobj, tflags, texp = T
     n = len(tb)
+    V.now = dict(phase='failed-pack', site=[yi, k, i], value=pname, prior=prior, then=change[0] if change is not None else None)
     try:
       x = K.build(P, v)[0]; V.calls += 1
       ys = owned(P, x)
@@ -1307,6 +1327,38 @@ def failed_pack_phase (P, K, v, obj, b, whole, exp, flags, V, raised, dec, state
         V.fail("%s:%s:equal-%s" % (clause, o0, tag), "%s: %s; the object decoded from its bytes (or a fresh object of that value) is not == it (first differing public field: %s)"
                % (K.name, hist, vd)); return None
     return 'raised' if failed else 'accepted'
+  def change_for (fi, f, t):
+    """the history's last step `field f is assigned another value of its domain`: -> (change, T) | None"""
+    if f in K.fixed: return None
+    alt = next((a for a in dom(t, fi)[1] if a != v[f]), None)
+    if alt is None and not (isinstance(t, tuple) and None in t[2]): return None
+    try:
+      V.calls += 2
+      t2 = K.build(P, dict(v, **{f: alt})); y2 = t2[0]
+      fl2 = t2[2] if len(t2) > 2 else {}
+      if fl2.get('tail') is not None: return None
+      new = getattr(y2, f)
+      comp = [(k2, getattr(y2, k2)) for k2 in COMPANIONS.get((type(y2).__name__, f), ())]
+      by = y2.pack()
+      if isinstance(new, (list, P.of.ofp_base, P.nx.nx_match)): new = K.build(P, dict(v, **{f: alt}))[0].__getattribute__(f)   # not shared with y2
+      if f not in vars(y2) and not isinstance(getattr(type(y2), f, None), property): return None
+    except Exception:
+      return None
+    e2 = None
+    if t2[1] is not None:
+      try: e2 = t2[1]()
+      except Exception: e2 = None
+    return (f, new, comp), (by, len(by), y2, fl2, e2)
+  if focus is not None:
+    # replay of ONE recorded history: the site, the value, the prior state and the last step are given
+    if focus.get('phase') != 'failed-pack': return
+    site = tuple(focus['site'])
+    if focus.get('then') is None:
+      attempt(site, focus['value'], focus['prior'], True)
+    else:
+      ct = next((change_for(fi, f, t) for fi, (f, t) in enumerate(K.fields) if f == focus['then']), None)
+      if ct is not None: attempt(site, focus['value'], focus['prior'], False, ct[0], ct[1])
+    return
   if not full:
     k = 1 if state < 2 else 3
     picks = sorted(set((crc + j * max(1, len(sites) // k)) % len(sites) for j in range(k)))
@@ -1331,29 +1383,12 @@ def failed_pack_phase (P, K, v, obj, b, whole, exp, flags, V, raised, dec, state
   if not raising or flags.get('tail') is not None: return
   # ... the failed attempt, the repair, and then ANOTHER field is given another value
   for fi, (f, t) in enumerate(K.fields):
-    if f in K.fixed: continue
-    alt = next((a for a in dom(t, fi)[1] if a != v[f]), None)
-    if alt is None and not (isinstance(t, tuple) and None in t[2]): continue
-    try:
-      V.calls += 2
-      t2 = K.build(P, dict(v, **{f: alt})); y2 = t2[0]
-      fl2 = t2[2] if len(t2) > 2 else {}
-      if fl2.get('tail') is not None: continue
-      new = getattr(y2, f)
-      comp = [(k2, getattr(y2, k2)) for k2 in COMPANIONS.get((type(y2).__name__, f), ())]
-      by = y2.pack()
-      if isinstance(new, (list, P.of.ofp_base, P.nx.nx_match)): new = K.build(P, dict(v, **{f: alt}))[0].__getattribute__(f)   # not shared with y2
-      if f not in vars(y2) and not isinstance(getattr(type(y2), f, None), property): continue
-    except Exception:
-      continue
-    e2 = None
-    if t2[1] is not None:
-      try: e2 = t2[1]()
-      except Exception: e2 = None
+    ct = change_for(fi, f, t)
+    if ct is None: continue
     cands = [(s_, p_) for s_, p_ in raising if not (s_[0] == 0 and s_[1] == f)] or raising
     for prior in PRIORS:
       site, pname = cands[(fi + (prior == 'encoded')) % len(cands)]
-      if attempt(site, pname, prior, False, (f, new, comp), (by, len(by), y2, fl2, e2)) is None: return
+      if attempt(site, pname, prior, False, ct[0], ct[1]) is None: return
 
 
 def unpack_cuts (n, full, crc, state):
@@ -1366,7 +1401,7 @@ def unpack_cuts (n, full, crc, state):
   if state >= 2: cuts |= set((min(8, n - 1), n // 2, n - 1, (crc >> 4) % n, 0))
   return sorted(cuts)
 
-def failed_unpack_phase (P, K, v, obj, b, flags, V, raised, state):
+def failed_unpack_phase (P, K, v, obj, b, flags, V, raised, state, focus=None):
   """An object that holds the kind's reference value unpack()s the first k bytes of this case's
   encoding (which raises part-way or returns), then the complete encoding.  The kind's reference
   vector: every k < n (encodings over 160 bytes: every k < 64, every 8th, the last 32) x {never
@@ -1382,9 +1417,14 @@ def failed_unpack_phase (P, K, v, obj, b, flags, V, raised, state):
   full = rv == v
   strict_eq = flags.get('eq', True) and K.opts.get('eq', True)
   priors = PRIORS if (full or state >= 2) else (PRIORS[(crc >> 10) & 1],)
+  cuts = unpack_cuts(n, full, crc, state)
+  if focus is not None:
+    if focus.get('phase') != 'failed-unpack': return
+    cuts, priors = [focus['cut']], (focus['prior'],)
   ov = None
-  for k in unpack_cuts(n, full, crc, state):
+  for k in cuts:
     for prior in priors:
+      V.now = dict(phase='failed-unpack', cut=k, prior=prior)
       try:
         xa = K.build(P, rv)[0]; V.calls += 1
         if prior == 'encoded': xa.pack(); V.calls += 1
@@ -1638,7 +1678,7 @@ def inconsistent_matches ():
   allf = M_CTX[0][3]
   out = []
   for dl, pr in ((None, None), (None, 6), (0x88cc, None), (0x88cc, 6), (0, 17), (0x0806, 1), (0x0806, None),
-                 (0x0800, None), (0x0800, 0x59), (0x0800, 0)):
+                 (0x0800, None), (0x0800, 0x59), (0x0800, 0), (0x0800, 132)):      # 132 = SCTP: no transport fields in OpenFlow 1.0
     out.append(m_from_flat(dl, pr, allf, fb))
     for keep in ('nw_tos', 'nw_src', 'nw_dst', 'tp_src', 'tp_dst'):
       out.append(m_from_flat(dl, pr, M_L2 + (keep,), fb))
@@ -2312,7 +2352,7 @@ class Blob (object):
   def pack (self): return self.b
   def __len__ (self): return len(self.b)
 
-def _attrform (parent, attr, suffix, conv, **flags):
+def _attrform (parent, attr, suffix, conv, kopts=None, **flags):
   """the parent kind with one attribute re-assigned in its secondary representation"""
   PK = KINDS[parent]
   def build (P, v):
@@ -2321,8 +2361,9 @@ def _attrform (parent, attr, suffix, conv, **flags):
     f = dict(r[2] if len(r) > 2 else {}); f.update(flags)
     return r[0], r[1], f
   name = '%s/%s' % (parent, suffix)
-  return Kind(name, PK.cat, PK.fields, build, PK.cls, noreuse=True, payload=PK.opts.get('payload'),
-              base=PK.base, fixed=PK.fixed)
+  ko = dict(noreuse=True, payload=PK.opts.get('payload'), base=PK.base, fixed=PK.fixed)
+  ko.update(kopts or {})
+  return Kind(name, PK.cat, PK.fields, build, PK.cls, **ko)
 
 def _late_forms ():
   for parent, attr in (('ofp_vendor_generic', 'data'), ('ofp_action_vendor_generic', 'body'),
@@ -2676,14 +2717,207 @@ Kind('nxt_packet_in/wire', 'wire', HDR + NXPI + [('match', NXMATCH), ('data', LE
      _w_nxt_packet_in, nxcls('nxt_packet_in'), carrier='nxmsg', nx_dispatch=True, owner='nxt_packet_in')
 
 
+
+# ---------------------------------------------------------------------------------------
+# more secondary forms (the other ways the library documents / accepts to give the same value)
+#   list-valued members given as a TUPLE   actions / ports / queues / properties / learn specs / bundle slaves:
+#                          same bytes, lengths, decode, field-wise equality (the decoded container is a list:
+#                          the library's == between a tuple and a list is not consulted)
+#   NXM entry value forms  the address families document "any format known by IPAddr / IPAddr6", a trailing
+#                          /bits or /netmask in a string, (address, bits | netmask) tuples and lists; Ethernet
+#                          addresses as text / raw bytes; value and mask as two constructor arguments in text
+#   nx_match routes        the documented ways to put an entry into an nx_match: constructor parts, append(),
+#                          +=, m.<name> = value (+ m.<name>_mask = mask), short names without prefix,
+#                          m.<name>_with_mask = (value, mask), m.<name>_entry = entry, m.<name> = entry,
+#                          nx_match(<name>=value) keywords
+#   nx_reg_load(dst=<entry instance>)   the value to load is the entry's value (8-byte field, left padded)
+#   nx_action_bundle       slaves given as port numbers instead of entries, dst as an entry instance
+# ---------------------------------------------------------------------------------------
+TUPLE_FORMS = (('ofp_flow_mod', 'actions'), ('ofp_packet_out/data', 'actions'), ('ofp_packet_out/buffered', 'actions'),
+               ('ofp_flow_stats', 'actions'), ('ofp_features_reply', 'ports'), ('ofp_packet_queue', 'properties'),
+               ('ofp_queue_get_config_reply', 'queues'), ('ofp_flow_mod_table_id', 'actions'), ('nx_flow_mod', 'actions'),
+               ('nx_action_learn', 'spec'), ('nx_action_bundle', 'slaves'))
+def _tuple_forms ():
+  for parent, attr in TUPLE_FORMS:
+    own = '%s/%s=tuple' % (KINDS[parent].opts.get('owner', parent.split('/')[0]), attr)
+    _attrform(parent, attr, '%s=tuple' % attr, lambda P, x: tuple(x), kopts=dict(payload=None, owner=own, kk=(1, 2)), libeq=False)
+_tuple_forms()
+
+def ip4_text (raw): return '.'.join(str(x) for x in raw)
+def ip6_text (raw):
+  import ipaddress
+  return ipaddress.IPv6Address(bytes(raw)).compressed
+def eth_text (raw): return ':'.join('%02x' % x for x in raw)
+ADDR_TEXT = dict(ip=ip4_text, ip6=ip6_text, ether=eth_text)
+
+# form -> (families, has a mask?, mask given as bits?)
+NXM_FORMS = {
+  'text': (('ip', 'ip6', 'ether'), False, False),             # cls('10.1.2.3')
+  'bytes': (('ip', 'ether'), False, False),                   # cls(b'\x0a\x01\x02\x03')
+  'int': (('ip',), False, False),                             # cls(0x0a010203)   (host order, as IPAddr takes it)
+  'text/bits': (('ip', 'ip6'), True, True),                   # cls('10.1.2.0/24')
+  'text/netmask': (('ip', 'ip6'), True, False),               # cls('10.1.2.0/255.255.255.0')
+  'tuple-bits': (('ip', 'ip6'), True, True),                  # cls(('10.1.2.0', 24))
+  'tuple-netmask': (('ip', 'ip6'), True, False),              # cls((IPAddr('10.1.2.0'), IPAddr('255.255.255.0')))
+  'list-netmask': (('ip', 'ip6'), True, False),               # cls([IPAddr('10.1.2.0'), '255.255.255.0'])
+  'text,text': (('ip', 'ip6', 'ether'), True, False),         # cls('10.1.2.0', '255.255.255.0')
+  'addr,bits': (('ip', 'ip6'), True, True),                   # cls(IPAddr('10.1.2.0'), 24)
+}
+
+def _nxm_form (form):
+  fams, masked, asbits = NXM_FORMS[form]
+  def build (P, v):
+    cls = getattr(P.nx, v['cls'])
+    fam = nxm_family(P, cls)
+    val = bytes.fromhex(v['value'])
+    txt = ADDR_TEXT[fam](val)
+    obj = nxm_val(P, fam, val)
+    m = v.get('mask')
+    mb = None if m is None else cidr_mask(len(val), m) if isinstance(m, int) else bytes.fromhex(m)
+    mtxt = None if mb is None else ADDR_TEXT[fam](mb)
+    mobj = None if mb is None else nxm_val(P, fam, mb)
+    if form == 'text': o = cls(txt)
+    elif form == 'bytes': o = cls(val)
+    elif form == 'int': o = cls(int.from_bytes(val, 'big'))
+    elif form == 'text/bits': o = cls('%s/%d' % (txt, m))
+    elif form == 'text/netmask': o = cls('%s/%s' % (txt, mtxt))
+    elif form == 'tuple-bits': o = cls((txt, m))
+    elif form == 'tuple-netmask': o = cls((obj, mobj))
+    elif form == 'list-netmask': o = cls([obj, mtxt])
+    elif form == 'text,text': o = cls(txt, mtxt)
+    elif form == 'addr,bits': o = cls(obj, m)
+    else: raise ValueError(form)
+    ones = mb is not None and mb == b'\xff' * len(mb)
+    exp = (lambda: S.nxm_entry(v['cls'], val, mb)) if v['cls'] in S.NXM_FIELDS else None
+    # a mask the CALLER gave as all-ones is equivalent to none and is not sent (see _b_nxm); when the caller gave
+    # no mask at all the decoded entry must be == the original
+    return o, exp, dict(libeq=not ones)
+  Kind('nxm_entry/' + form, 'nxm', [], build, lambda P: None, owner='nxm_entry/' + form, tag=form)
+for _f in NXM_FORMS: _nxm_form(_f)
+
+def nxm_form_sweep (P, form, thorough):
+  """every registered NXM class of the form's address families x 4 values x the mask boundary set"""
+  nx = P.nx
+  fams, masked, asbits = NXM_FORMS[form]
+  for name in sorted(nx._nxm_name_to_type):
+    cls = nx._nxm_type_to_class[nx._nxm_name_to_type[name]]
+    fam = nxm_family(P, cls)
+    if fam not in fams: continue
+    n = cls._nxm_length
+    vals = [fpbytes(7, n), b'\0' * (n - 1) + b'\1', b'\xff' * n, b'\x80' + b'\0' * (n - 2) + b'\xc8']
+    if not masked:
+      for val in vals: yield dict(cls=name, value=val.hex(), mask=None)
+      continue
+    if not cls().allow_mask: continue
+    if asbits: masks = [0, 1, 4 * n, 8 * n - 1, 8 * n] if not thorough else list(range(8 * n + 1))
+    else:
+      masks = [(b'\xff' * (n // 2) + b'\0' * (n - n // 2)).hex(), ('ff' * (n - 1) + 'fe'), 'ff' * n, '80' + '00' * (n - 1)]
+      if fam == 'ether': masks += ['010000000000', '00' * n]
+    for val in vals:
+      for m in masks:
+        mb = cidr_mask(n, m) if isinstance(m, int) else bytes.fromhex(m)
+        yield dict(cls=name, value=bytes(a & b for a, b in zip(val, mb)).hex(), mask=m)
+
+NXM_ROUTES = ('append', 'iadd', 'attr', 'attr-short', 'with_mask', 'entry', 'attr=entry', 'kw')
+
+class Misbuilt (Exception):
+  """a documented way of building the object did not yield the object"""
+  def __init__ (self, what, text): Exception.__init__(self, text); self.what = what
+
+def _nxm_route (route):
+  def build (P, v):
+    nx = P.nx
+    m = nx.nx_match()
+    kw = {}
+    for e in v['parts']:
+      cls = getattr(nx, e['cls'])
+      fam = nxm_family(P, cls)
+      name = e['cls'].lower()
+      if route == 'attr-short': name = name.split('_', 1)[1]              # nxm_of_ip_src -> of_ip_src
+      val = nxm_val(P, fam, bytes.fromhex(e['value']))
+      k = e.get('mask')
+      mask = None if k is None else k if isinstance(k, int) else nxm_val(P, fam, bytes.fromhex(k))
+      if route == 'append': m.append(mk_nxm(P, e)[0])
+      elif route == 'iadd':
+        m += mk_nxm(P, e)[0]
+        if not isinstance(m, nx.nx_match):
+          raise Misbuilt('iadd-result', "after `m += <entry>` m is %r, not the nx_match" % (m,))
+      elif route in ('attr', 'attr-short'):
+        setattr(m, name, val)
+        if mask is not None: setattr(m, name + '_mask', mask)
+      elif route == 'with_mask': setattr(m, name + '_with_mask', (val, mask))
+      elif route == 'entry': setattr(m, name + '_entry', mk_nxm(P, e)[0])
+      elif route == 'attr=entry': setattr(m, name, mk_nxm(P, e)[0])
+      elif route == 'kw':
+        if mask is None: kw[name] = val
+        else: kw[name + '_with_mask'] = (val, mask)
+    if route == 'kw': m = nx.nx_match(**kw)
+    if len(m._parts) != len(v['parts']):
+      raise Misbuilt('entries', "the match holds %d entries after %d were given" % (len(m._parts), len(v['parts'])))
+    return m, KINDS['nx_match'].build(P, v)[1]
+  Kind('nx_match/' + route, 'nxmatch', [], build, nxcls('nx_match'), owner='nx_match/' + route, noreuse=True,
+       refv=dict(parts=_NML[12]), tag=route)
+for _r in NXM_ROUTES: _nxm_route(_r)
+
+def nxm_route_lists (thorough):
+  L = nxmatch_lists(2)
+  return L if thorough else L[:11] + L[11::9]
+
+_RLV = dict(fp=lambda n: fpbytes(9, n), zero=lambda n: b'\0' * n, ones=lambda n: b'\xff' * n, one=lambda n: b'\0' * (n - 1) + b'\1')
+def _b_reg_load_entry (P, v):
+  cls = getattr(P.nx, v['dst'])
+  n = S.NXM_FIELDS[v['dst']][2]
+  val = _RLV[v['entry_value']](n)
+  ent = cls(nxm_val(P, nxm_family(P, cls), val))
+  kw = dict(dst=ent, offset=v['offset'])
+  if v['nbits'] is not None: kw['nbits'] = v['nbits']
+  o = P.nx.nx_reg_load(**kw)
+  nbits = v['nbits'] if v['nbits'] is not None else 8 * n - v['offset']
+  def exp ():
+    return S.nx_action('nx_action_reg_load', S.NXAST['REG_LOAD'],
+                       dict(ofs_nbits=v['offset'] << 6 | (nbits - 1), dst=S.nxm_field_header(v['dst']), value=int.from_bytes(val, 'big')))
+  # the decoded action names the field's class and carries the value as an integer: bytes decide, not ==
+  return o, exp, dict(eq=False, view=False)
+Kind('nx_reg_load/dst=entry', 'nxaction',
+     [('offset', ('enum', 0, [1, 3])), ('nbits', ('enum', None, [1, 8])),
+      ('dst', ('enum', 'NXM_NX_REG3', ['NXM_OF_ETH_DST', 'NXM_NX_TUN_ID', 'NXM_OF_IN_PORT', 'NXM_OF_IP_TOS'])),
+      ('entry_value', ('enum', 'fp', ['zero', 'ones', 'one']))],
+     _b_reg_load_entry, nxcls('nx_reg_load'), owner='nx_reg_load/dst=entry', noreuse=True)
+
+import mc.refs.nxbundle as NXB
+def _b_bundle_forms (P, v):
+  nx = P.nx
+  slaves = list(v['slaves']) if v['slave_form'] == 'int' else [nx.NXM_OF_IN_PORT(x) for x in v['slaves']]
+  if v['slave_form'] == 'tuple': slaves = tuple(slaves)
+  kw = dict(algorithm=v['algorithm'], fields=v['fields'], basis=v['basis'], slaves=slaves)
+  load = None
+  if v['load']:
+    name, ofs, nbits = v['load']
+    cls = getattr(nx, name)
+    kw.update(load=True, dst=cls(0) if v['dst_form'] == 'entry' else cls, offset=ofs)
+    if nbits is not None: kw['nbits'] = nbits
+    load = (S.nxm_field_header(name), ofs, nbits if nbits is not None else 8 * S.NXM_FIELDS[name][2] - ofs)
+  o = nx.nx_action_bundle(**kw)
+  return o, (lambda: NXB.bundle(v['algorithm'], v['fields'], v['basis'], v['slaves'], load)), dict(eq=False, view=False)
+Kind('nx_action_bundle/forms', 'nxaction',
+     [('algorithm', 'u16'), ('fields', 'u16'), ('basis', 'u16'),
+      ('slaves', ('enum', [1, 2, 3], [[], [0xffff], [1, 2, 3, 4], [1, 2, 3, 4, 5, 6, 7, 8]])),
+      ('slave_form', ('enum', 'int', ['entry', 'tuple'])),
+      ('load', ('enum', ['NXM_NX_REG0', 0, 16], [None, ['NXM_NX_REG3', 4, 8], ['NXM_NX_REG1', 0, None], ['NXM_NX_REG2', 16, None]])),
+      ('dst_form', ('enum', 'entry', ['class']))],
+     _b_bundle_forms, nxcls('nx_action_bundle'), owner='nx_action_bundle/forms', noreuse=True)
+
+
 # ---------------------------------------------------------------------------------------
 # the enumerated space
 # ---------------------------------------------------------------------------------------
 CUSTOM = ('ofp_match', 'nxm_entry', 'nx_match', 'ofp_stats_request/body-reassigned', 'ofp_stats_reply/body-appended',
-          'nxm_entry/wire', 'nx_match/wire', 'nx_flow_mod/wire', 'nxt_packet_in/wire')
+          'nxm_entry/wire', 'nx_match/wire', 'nx_flow_mod/wire', 'nxt_packet_in/wire') \
+         + tuple('nxm_entry/' + f for f in NXM_FORMS) + tuple('nx_match/' + r for r in NXM_ROUTES)
 
 def k_for (K, thorough):
   n = len([f for f in K.fields if f[0] not in K.fixed])
+  if 'kk' in K.opts: return K.opts['kk'][1 if thorough else 0]
   if thorough: return 3
   return 2 if n <= 14 else 1
 
@@ -2793,6 +3027,10 @@ def sweeps (thorough):
     out.append(('wire-nxm-lists', cont, lambda cont=cont: (K[cont].basev(match=p) for p in wire_match_lists(pox(), thorough))))
   for cont in ('ofp_flow_mod/data=packet_in', 'ofp_packet_out/data=packet_in', 'nx_flow_mod/data=packet_in'):
     out.append(('packet-in-forms', cont, lambda cont=cont: pi_forms(cont, thorough)))
+  for form in NXM_FORMS:
+    out.append(('nxm-value-forms', 'nxm_entry/' + form, lambda form=form: nxm_form_sweep(pox(), form, thorough)))
+  for route in NXM_ROUTES:
+    out.append(('nxmatch-routes', 'nx_match/' + route, lambda: (dict(parts=p) for p in nxm_route_lists(thorough))))
   out.append(('64KiB-limits', None, lambda: limit_cases()))
   out.append(('changed-after-first-encoding', None, lambda: mutation_cases()))
   return out
@@ -2807,12 +3045,56 @@ def state_stride (sname, thorough):
   return 1
 
 
+def replay_data (kn, v, sname, st, V, suffix):
+  """Everything needed to re-execute the case: the vector as a JSON string (`vj`; the vectors nest deeper
+  than the report's generic conversion keeps, `v` is for reading only), the level of the object-history
+  phases it was run with, and - for the failed-operation phases - the one history that failed."""
+  d = dict(kind=kn, v=v, vj=json.dumps(v), sweep=sname, state=st)
+  if suffix in V.at: d['at'] = V.at[suffix]
+  return d
+
+
+VERIFY_KEYS = 10
+
+def verify_replays (viol):
+  """Every recorded counterexample (the first VERIFY_KEYS keys in order) is replayed once in a FRESH process
+  before it is reported: a replay that shows nothing there (the codec under test keeps state between
+  objects, so the case needs what ran before it) is retried with the case that preceded it in the run as a
+  prelude; if that does not show it either, the report says so instead of pointing at a file that proves nothing."""
+  import subprocess, tempfile
+  here = os.path.dirname(os.path.dirname(os.path.dirname(os.path.abspath(__file__))))
+  def shows (key, data):
+    with tempfile.NamedTemporaryFile('w', suffix='.json', prefix='c01_replay_', delete=False) as f:
+      json.dump(dict(key=key, replay=data), f); name = f.name
+    try:
+      r = subprocess.run([sys.executable, '-B', '-m', 'mc.run', PID, '--replay', name], cwd=here, capture_output=True, text=True, timeout=600)
+      return ("FAIL %s --" % key) in r.stdout
+    except Exception:
+      return False
+    finally:
+      try: os.unlink(name)
+      except OSError: pass
+  for n, key in enumerate(sorted(viol)):
+    x = viol[key]
+    data = dict(x['replay'])
+    prev = data.pop('prev', None)
+    x['replay'] = data
+    if n >= VERIFY_KEYS or data.get('kind') == '<dispatch-tables>': continue
+    if shows(key, data): continue
+    if prev is not None and shows(key, dict(data, prelude=[prev])):
+      x['replay'] = dict(data, prelude=[prev])
+      x['what'] += " [shows only after another object was handled in the same process: the replay runs the preceding case first]"
+    else:
+      x['what'] += " [NOT reproduced when this case is replayed alone in a fresh process: it depends on what the process did before]"
+
+
 def _work (item):
   si, sl, nsl, thorough, only = item
   P = pox()
   rep = Report(PID, "exploration")
   sname, kname, gen = sweeps(thorough)[si]
   j = -1
+  prev = None
   try:
     for x in gen():
       j += 1
@@ -2832,7 +3114,12 @@ def _work (item):
       raw = V.raw or b''
       rep.outcome((kn, tuple(f[0] for f in V.fails), V.note, len(raw), zlib.crc32(raw) & 0xff))
       for suffix, text in V.fails:
-        rep.violation("%s:%s" % (PID, suffix), text, dict(kind=kn, v=v, sweep=sname, state=st))
+        key = "%s:%s" % (PID, suffix)
+        if key in rep.violations: rep.violations[key]['count'] += 1; continue
+        data = replay_data(kn, v, sname, st, V, suffix)
+        if prev is not None: data['prev'] = dict(kind=prev[0], vj=json.dumps(prev[1]), state=prev[2])   # see verify_replays
+        rep.violation(key, text, data)
+      prev = (kn, v, st)
       if j == 0 and not V.fails and V.raw is not None and len(raw) <= 128 and sname.startswith(('lattice', 'nxm', 'match-lattice', 'wire')):
         rep.sample(dict(kind=kn, sweep=sname, vector=v, bytes=raw.hex(), verdict=V.note or 'held'))
   except Exception:
@@ -2860,13 +3147,15 @@ def run (cfg):
     rep.merge(r)
     for k, x in viol.items():
       c = best.get(k)
-      cand = (len(repr(x['replay'])), repr(x['replay']))
+      core = repr(sorted((a, b) for a, b in x['replay'].items() if a != 'prev'))
+      cand = (len(core), core)
       if c is None: best[k] = [cand, dict(x)]
       else:
         c[1]['count'] += x['count']
         if cand < c[0]:
           c[0] = cand; c[1]['replay'] = x['replay']; c[1]['what'] = x['what']
   rep.violations = dict((k, c[1]) for k, c in best.items())
+  verify_replays(rep.violations)
   if not cfg.only:
     tc = table_cases(P)
     rep.evaluations += len(P.of._message_type_to_class); rep.transitions += 2 * len(P.of._message_type_to_class)
@@ -2953,7 +3242,19 @@ def run (cfg):
               "the same bytes, len() agree; reference vector: every k < n (n > 160: k < 64, every 8th, the last 32) x "
               "both prior states; other cases two k by checksum (thorough: up to seven, both prior states). REJECTED "
               "PACK: each object beyond a 64 KiB limit whose pack() was rejected is shrunk in place (list cut / bytes "
-              "re-assigned) to its neighbour that fits and must encode like a fresh object of that size"
+              "re-assigned) to its neighbour that fits and must encode like a fresh object of that size. "
+              "(16) MORE SECONDARY FORMS, same clauses and layout tables: every list-valued member (actions of flow_mod / both packet_out kinds / "
+              "flow_stats / ofp_flow_mod_table_id / nx_flow_mod, ports, queues, queue properties, learn specs, bundle slaves) given as a TUPLE "
+              "(field lattice of the carrier, 1 deviation; thorough 2); NXM value forms for every registered class of the IPv4 / IPv6 / Ethernet "
+              "families x 4 values: text, raw bytes, integer, 'addr/bits', 'addr/netmask', (addr, bits), (addr, netmask), [addr, netmask], "
+              "two text arguments, (address object, bits) x mask boundaries {0, 1, half, width-1, width} / {half, width-1, all-ones, 1 bit; "
+              "Ethernet also multicast bit, zero} (an entry built WITHOUT a mask must be == its decoded form); nx_match built through every "
+              "documented route {append, +=, m.name = value + m.name_mask, short names, m.name_with_mask, m.name_entry, m.name = entry, "
+              "constructor keywords} over the nx_match lists; nx_reg_load(dst=<entry instance>) over 5 field widths x {inferred, 1, 8} bits x "
+              "3 offsets x 4 values; nx_action_bundle with slaves as port numbers / entries / a tuple, dst as entry instance / class, nbits "
+              "given / inferred, compared with the bundle layout of nicira-ext.h (mc/refs/nxbundle.py). Every reported counterexample is "
+              "replayed in a fresh process before it is reported (replays carry the vector as JSON text, the level of the history phases "
+              "and, for the failed-operation phases, the failing site / value / prior state / truncation point)"
               % (len(KINDS), len([k for k in KINDS if k.startswith('nx')]),
                  "2" if cfg.quick else "3", 3 if thorough else 2, 3 if thorough else 2))
   rep.bound = dict(deviations=2 if cfg.quick else 3, payload="0..1500", action_seq_len=3 if thorough else 2,
@@ -2978,6 +3279,9 @@ def run (cfg):
     "for ofp_flow_mod(data=<unbuffered complete packet_in>) the documented composite is required to be flow_mod + barrier request + unbuffered packet_out with the packet_in's in_port and data; the packet_out's actions and the xids of the two extra messages are the library's choice; len() is that of the flow_mod",
     "an object decoded from bytes cannot carry a caller's packet_in / body object: for data=<packet_in> on a flow_mod and data/body=<object with pack()> the decoded object is required to re-encode to the same bytes, not to be == the original",
     "failed operations: what the failing len()/pack()/unpack() itself raises or returns is not judged, only the object's behaviour afterwards; a value the library refuses at assignment is no site; fields that pack() is documented to normalise or infer from another field (ofp_action_output.max_len from port, nx_reg_load.nbits from offset/dst) are re-specified together with that field",
+    "a list-valued member given as a tuple decodes to a list: the bytes, lengths and the public fields must agree, the library's == between a tuple and a list is not consulted (as for ofp_stats_reply bodies)",
+    "OpenFlow 1.0 defines tp_src / tp_dst for TCP, UDP and ICMP only: a match naming them under another nw_proto (e.g. SCTP, 132) is prerequisite-inconsistent and covered by the 'inconsistent-match' kind (encoding does not fail, lengths agree)",
+    "nx_reg_load(dst=<entry instance>) and the bundle forms decode to the class / integer / entry representation: bytes, lengths and re-encoding decide, not ==",
     "initialising the Nicira component is represented by running the real nicira._init_unpacker() on of_01.unpackers (what nicira.launch() does to the decoder table) and using the resulting table; the process-wide table is put back afterwards",
   ]
   return rep
@@ -2989,8 +3293,19 @@ def replay (cfg, data):
     tc = table_cases(P)
     return bool(tc), "\n".join("FAIL %s:%s -- %s" % (PID, k, t) for k, t in tc) or "every registered type code has its decoder in every dispatch table"
   K = KINDS[data["kind"]]
-  V = run_case(P, K, data["v"], data.get("state", True))
-  lines = ["kind: %s" % K.name, "vector: %r" % (data["v"],)]
+  v = json.loads(data["vj"]) if "vj" in data else data["v"]
+  st = int(data.get("state", 1))
+  lines = ["kind: %s" % K.name, "vector: %r" % (v,), "object-history phases: level %d" % st]
+  for pre in data.get("prelude", ()):
+    run_case(P, KINDS[pre["kind"]], json.loads(pre["vj"]), int(pre.get("state", 1)))
+    lines.append("(first ran the case that preceded it in the run: %s)" % pre["kind"])
+  V = None
+  if data.get("at"):
+    # the recorded history alone (failing site, value, prior state ...); the whole case if that shows nothing
+    lines.append("recorded history: %r" % (data["at"],))
+    V = run_case(P, K, v, st, focus=data["at"])
+    if not V.fails: V = None
+  if V is None: V = run_case(P, K, v, st)
   if V.note: lines.append("note: %s" % V.note)
   if V.raw is not None:
     lines.append("encoded (%d bytes): %s%s" % (len(V.raw), V.raw[:96].hex(), "..." if len(V.raw) > 96 else ""))
